@@ -3,6 +3,12 @@
 import json, os
 
 CLAIMED = {
+    "C16": ("Coq proof on ProtoHp.v (decoded search space is a permutation of the encoded one and parents-first for every space a build program produces) + implementation-level differential through serialised protocol-buffer messages and an in-process client/servicer pair",
+            "C16_nothing_lost_or_added, C16_parents_first (stable sort on the number of conditions after the by-kind grouping of the schema), C16_program_space (every container built by a program satisfies the depth hypothesis). "
+            "PARTIAL: the rest is checked on the implementation with every request and response serialised and parsed: spaces+values and trials (status, id, values exact and untyped-changed, scores/metrics up to single precision) round trip; "
+            "one request sequence applied to an oracle directly and through OracleClient->OracleServicer gives the same lifecycle on all four oracle kinds, the same values while the chief knows the space, a parents-first chief space and "
+            "exactly-active trials on the chief when sub-spaces are declared on the worker; exit_chief iff nothing ongoing and no tuner id left.",
+            "Trusted: Coq kernel/vm_compute; python harness; protobuf wire format (exercised, sockets/gRPC not); container model tied to the code by C13.", "DESIGN.md section 6 C16"),
     "C15": ("Coq proof of the round trips visible in the models (MetricHistory codec, trial file, oracle state, container copy) + implementation-level round trips through real JSON text for every serialisable type",
             "C15_metric_history_roundtrip: for every history built by reports (steps distinct: C15_reports_keep_steps_distinct) from_config(get_config(h)) keeps for every step exactly its executions, lists them in step order, and is "
             "a fixed point of a second round trip; C15_trial_file_roundtrip; C15_oracle_state_roundtrip (with C07). PARTIAL: per-kind hyperparameter configs, Trial fields, tracker directions and JSON itself are not modelled - they are checked "
